@@ -942,6 +942,12 @@ pub fn tokenize(out: &[u8]) -> Result<Vec<Ev>, String> {
             // of a refusal): the refusal of a print range when it speaks of addresses, memory or a range or answers a
             // print statement of the program, otherwise the "this is not a command" answer of the prompt.
             let t = l.to_ascii_lowercase();
+            // further remarks between the announcement of a stepped instruction and its prompt are stepping chatter, like
+            // "Trap flag is set"
+            if matches!(evs.last(), Some(Ev::About(_)) | Some(Ev::TrapNote)) && !l.trim().is_empty() && !t.contains("panick") {
+                i = n;
+                continue;
+            }
             let behind_header = matches!(evs.last(), Some(Ev::PrintHdr(_)));
             if (behind_header || matches!(evs.last(), Some(Ev::Prompt))) && !l.trim().is_empty() && !t.contains("panick") {
                 if behind_header || t.contains("address") || t.contains("memory") || t.contains("range") {
